@@ -339,6 +339,15 @@ func (e *Env) server() (*server, error) {
 	if err != nil {
 		return nil, err
 	}
+	// the digest must see what was just imported (a digest that reads nothing would make
+	// every state comparison vacuous)
+	d, err := s.digest()
+	if err != nil {
+		return nil, err
+	}
+	if !strings.Contains(d, "/"+hashVals(baselineVals())+"/") {
+		return nil, fmt.Errorf("digest %s does not show the baseline %s", d, hashVals(baselineVals()))
+	}
 	e.srv = s
 	return s, nil
 }
@@ -378,22 +387,24 @@ func (s *server) digest() (string, error) {
 	ctx := context.Background()
 	sch, _ := json.Marshal(schemaDigest(s.cmd.API.Schema(ctx)))
 	out := fmt.Sprintf("%x", sha1.Sum(sch))
+	h := s.cmd.Server.Holder()
 	for _, view := range []string{"standard", "standard_c06"} {
-		wt, err := s.cmd.API.FragmentData(ctx, "i", "f", view, 0)
-		if err != nil {
+		// the open fragment the node serves requests from (read under the fragment's
+		// own lock: a lock left held by a failed request shows up as a hang here)
+		f := pilosa.VerifHolderFragment(h, "i", "f", view, 0)
+		if f == nil {
 			// a view or fragment that does not exist holds no bits
 			out += "/" + hashVals(nil)
 			continue
 		}
-		var buf bytes.Buffer
-		if _, err := wt.WriteTo(&buf); err != nil {
+		var vals []uint64
+		if err := f.ForEachBit(func(row, col uint64) error {
+			vals = append(vals, row<<20|col)
+			return nil
+		}); err != nil {
 			return "", err
 		}
-		b := roaring.NewBitmap()
-		if err := b.UnmarshalBinary(buf.Bytes()); err != nil {
-			return "", err
-		}
-		out += "/" + hashVals(b.Slice())
+		out += "/" + hashVals(vals)
 	}
 	return out, nil
 }
